@@ -72,7 +72,7 @@ def run(ctx):
     ctx.proof_leg(TARGETS, PINS, k_targets=U.K_TARGETS)
     vh = ctx.need_harness()
     rng = ctx.rng
-    n = 900 if ctx.tier == "thorough" else 150
+    n = 2700 if ctx.tier == "thorough" else 150
     roots, docs = [], []
     for i in range(n):
         g = U.Gen(rng, p_bad=0.12 if i % 3 == 1 else 0.0, clean=(i % 3 == 0), p_dyn=rng.choice([0.0, 0.1, 0.3]), p_handler=rng.choice([0.0, 0.25]))
